@@ -101,6 +101,13 @@ def coq_check(pid, props_files, extract_file):
 # ----------------------------------------------------------------------------------------------
 # running driver and model
 # ----------------------------------------------------------------------------------------------
+def _big_stack():
+    import resource
+    try: resource.setrlimit(resource.RLIMIT_STACK, (resource.RLIM_INFINITY, resource.RLIM_INFINITY))
+    except Exception:
+        try: resource.setrlimit(resource.RLIMIT_STACK, (1 << 30, resource.getrlimit(resource.RLIMIT_STACK)[1]))
+        except Exception: pass
+
 def run_lines(exe, lines, per_batch_timeout=600, env=None):
     """Feed lines to exe (one output line per input line).  A crash or hang is attributed to the
     first case without an output line; the run resumes after it."""
@@ -112,7 +119,7 @@ def run_lines(exe, lines, per_batch_timeout=600, env=None):
         data = "\n".join(lines[i:]) + "\n"
         try:
             r = subprocess.run([exe], input=data, stdout=subprocess.PIPE, stderr=subprocess.PIPE, text=True,
-                               timeout=per_batch_timeout, env=e, errors="replace")
+                               timeout=per_batch_timeout, env=e, errors="replace", preexec_fn=_big_stack)
             got = r.stdout.split("\n")
             if got and got[-1] == "": got.pop()
             rc, err = r.returncode, r.stderr
